@@ -394,14 +394,22 @@ func (s *state) visitFunction(node *ast.FunctionNode) {
 		return
 	}
 
+	// the loop functions refer to the loop of their argument, which need not be
+	// the innermost one.
+	var loopVar string
+	if len(node.Args) == 1 {
+		if ref, ok := node.Args[0].(*ast.DataRefNode); ok {
+			loopVar = ref.Key
+		}
+	}
 	switch node.Name {
 	case "isFirst":
 		// TODO: Add compile-time check that this is only called on loop variable.
-		s.js("(", s.scope.loopindex(), " == 0)")
+		s.js("(", s.scope.loopindex(loopVar), " == 0)")
 	case "isLast":
-		s.js("(", s.scope.loopindex(), " == ", s.scope.looplimit(), " - 1)")
+		s.js("(", s.scope.loopindex(loopVar), " == ", s.scope.looplimit(loopVar), " - 1)")
 	case "index":
-		s.js(s.scope.loopindex())
+		s.js(s.scope.loopindex(loopVar))
 	default:
 		s.errorf("unimplemented function: %v", node.Name)
 	}
